@@ -8,6 +8,7 @@ import VotelibProofs.Lemmas.ShapeDefs
 import VotelibProofs.Props.C01
 import VotelibProofs.Lemmas.ShapeQuota
 import VotelibProofs.Lemmas.ShapeCondorcet
+import VotelibProofs.Lemmas.ShapeConvert
 namespace VL.C08
 open VL
 
@@ -236,6 +237,89 @@ example : copeland true [((0, 1), 1), ((1, 0), 1), ((0, 2), 1), ((2, 0), 1), ((1
     [Slot.tie [0, 1, 2], Slot.tie [0, 1, 2]] := by decide +kernel
 
 end condorcet
+
+/-! ### positional voting and approval voting: `PreConverted(converter, Plurality())` (model VL.Shape, converters of C13) -/
+
+section converted
+open VL.Convert VL.Shape
+
+/-- **positional voting** (Borda, Dowdall, geometric, modified Borda, fixed-top, sequence scorers): for every profile
+    the scorer accepts — every well-formed profile, `scorerOK_of_wf` — the composed evaluator answers, and the answer
+    has the selection shape over the candidates ranked on some ballot.  In particular there is no error outcome. -/
+theorem positional_shape (sc : Scorer) (p : RProfile) (n : Nat)
+    (hs : C13.ScorerOK sc (allRankedCandidates p).length p) (h1 : 1 ≤ n) (hlen : n ≤ (allRankedCandidates p).length) :
+    ∃ r, positionalPlurality sc p n = .ok r ∧ SelShape (allRankedCandidates p) n r := by
+  obtain ⟨d, hd, hmem, hnd, _⟩ := C13.positional_sum sc _ p (C13.covers_allRankedCandidates p) hs
+  refine ⟨plurality d n, ?_, ?_⟩
+  · unfold positionalPlurality preConverted rankedToPositional
+    rw [hd]
+  · exact plurality_over_dict d _ (nodup_allRankedCandidates p) (hnd (nodup_allRankedCandidates p)) hmem n h1 hlen
+
+/-- the only way positional voting fails: the scorer refuses a ballot (Borda: more ranks than candidates — impossible
+    for well-formed ballots; `Geometric(0)`: division by zero).  Neither is a declared refusal, neither is reachable
+    from a well-formed profile with a sane scorer (`scorerOK_of_wf`). -/
+theorem positional_refusals (sc : Scorer) (p : RProfile) (n : Nat) (e : Err)
+    (h : positionalPlurality sc p n = .error e) : ¬ C13.ScorerOK sc (allRankedCandidates p).length p := by
+  intro hs
+  obtain ⟨d, hd, _⟩ := C13.positional_sum sc _ p (C13.covers_allRankedCandidates p) hs
+  unfold positionalPlurality preConverted rankedToPositional at h
+  rw [hd] at h
+  cases h
+
+/-- **approval voting (AV) and satisfaction approval voting (SAV)**: whenever no approval set is empty under SAV
+    (`ApprovalOK`; an empty set makes `Fraction(n, 0)` raise), the composed evaluator answers and the answer has the
+    selection shape over the approved candidates. -/
+theorem approval_shape (split : Bool) (p : AProfile) (n : Nat) (hok : C13.ApprovalOK split p)
+    (h1 : 1 ≤ n) (hlen : n ≤ (approvalCands p).length) :
+    ∃ r, approvalPlurality split p n = .ok r ∧ SelShape (approvalCands p) n r := by
+  obtain ⟨d, hd, hnd, _⟩ := C13.approvalToSimple_sum split p hok
+  refine ⟨plurality d n, ?_, ?_⟩
+  · unfold approvalPlurality preConverted
+    rw [hd]
+  · have heq := approvalToSimple_eq_ok split p hok
+    rw [hd] at heq
+    injection heq with heq
+    refine plurality_over_dict d _ (nodup_canonSet _) hnd ?_ n h1 hlen
+    intro k
+    rw [heq, mem_dkeys_approvalFold, approvalCands, mem_canonSet, List.mem_flatMap]
+    simp [dkeys]
+
+/-- the only error of AV/SAV is the `ZeroDivisionError` of an empty approval set under SAV — outside the property's
+    quantifier (a ballot approving nobody), and not a declared refusal -/
+theorem approval_refusals (split : Bool) (p : AProfile) (n : Nat) (e : Err)
+    (h : approvalPlurality split p n = .error e) :
+    split = true ∧ (∃ bw ∈ p, bw.1 = []) ∧ e = .other "ZeroDivisionError" := by
+  by_cases hok : C13.ApprovalOK split p
+  · obtain ⟨d, hd, _⟩ := C13.approvalToSimple_sum split p hok
+    unfold approvalPlurality preConverted at h
+    rw [hd] at h
+    cases h
+  · have hs : split = true := by
+      cases split with
+      | true => rfl
+      | false => exact absurd (fun hf => by cases hf) hok
+    subst hs
+    have := C13.approvalToSimple_rejects p hok
+    unfold approvalPlurality preConverted at h
+    rw [this] at h
+    injection h with h
+    unfold C13.ApprovalOK at hok
+    push Not at hok
+    obtain ⟨_, bw, hbw, he⟩ := hok
+    exact ⟨rfl, ⟨bw, hbw, he⟩, h.symm⟩
+
+/-- non-vacuity -/
+example : RankedWF [([.one 0, .shared [1, 2]], 2), ([.one 2, .one 0], 1)] ∧
+    positionalPlurality (.borda 1) [([.one 0, .shared [1, 2]], 2), ([.one 2, .one 0], 1)] 2 =
+      .ok [Slot.cand 0, Slot.cand 2] := by
+  constructor
+  · unfold RankedWF; decide
+  · decide +kernel
+
+example : approvalPlurality true [([0, 1], 2), ([1, 2], 2), ([0, 2], 2)] 2 = .ok [Slot.tie [0, 1, 2], Slot.tie [0, 1, 2]] := by
+  decide +kernel
+
+end converted
 
 /-- non-vacuity -/
 example : SelShape (keys [(1,5),(2,3),(3,3),(4,1)]) 2 (getNBest [(1,5),(2,3),(3,3),(4,1)] 2) :=
